@@ -1089,3 +1089,154 @@ fn extreme_depth_cases(f: &mut dyn FnMut(Case)) {
         }
     }
 }
+
+// ---- (h) metamethods that mutate the container they live in, inconsistent comparisons, functions and
+//          generators with many defaulted parameters at register pressure ---------------------------------
+
+fn meta_mutator_cases(eps: &[(String, String)], thorough: bool, f: &mut dyn FnMut(Case)) {
+    // (h1) an element whose @display mutates the enclosing container, shown in every way
+    let shows = ["'{c}'", "print c", "debug c", "string.format('{} {}', c, c)", "'{c:?}'", "throw c", "'{(c, c)}'", "koto.type c", "test.assert_eq c, 1", "c", "'{c.first()}'"];
+    let containers = [
+        ("c = []", "c.push e", "c.push 1", "c.clear()", "c.pop()"),
+        ("c = {}", "c.insert 'e', e", "c.insert 'zz', 1", "c.clear()", "c.remove 'e'"),
+        ("inner = []\nc = [inner, 1]", "inner.push e", "c.push 1", "c.clear()", "inner.clear()"),
+        ("c = {inner: []}", "c.inner.push e", "c.insert 'zz', 1", "c.inner.push 1", "c.clear()"),
+    ];
+    for (init, put, m1, m2, m3) in containers {
+        for mutation in [m1, m2, m3] {
+            for show in shows {
+                let text = format!("{}\ne =\n  @display: ||\n    {}\n    'e'\n{}\n{}\n", init, mutation, put, show);
+                f(Case { kind: 'R', text, group: "meta-mutator", apis: vec!["gen:display-mutator".to_string()] });
+            }
+        }
+    }
+    // (h2) an element whose operators / protocols mutate the container, through every entry point of
+    //      list / tuple / map / iterator that compares, adds, iterates or calls
+    let metas = ["@==", "@!=", "@<", "@<=", "@>", "@>=", "@+", "@-", "@*", "@/", "@%", "@negate", "@size", "@index", "@call", "@iterator", "@next"];
+    let meta_body = |mutation: &str| -> String {
+        let mut b = String::from("e =\n  n: 1\n");
+        for m in metas {
+            let args = match m {
+                "@negate" | "@size" | "@iterator" | "@next" => "||",
+                "@call" => "|x|",
+                _ => "|other|",
+            };
+            let ret = match m {
+                "@==" | "@<=" | "@>=" => "true",
+                "@!=" | "@<" | "@>" => "false",
+                "@size" => "1",
+                "@iterator" => "(1, 2)",
+                "@next" => "null",
+                _ => "self",
+            };
+            b.push_str(&format!("  {}: {}\n    {}\n    {}\n", m, args, mutation, ret));
+        }
+        b
+    };
+    for (module, name) in eps {
+        if !matches!(module.as_str(), "list" | "tuple" | "map" | "iterator") {
+            continue;
+        }
+        let api = format!("{}.{}", module, name);
+        for (init, put, m1, m2, m3) in [
+            ("c = [3, 1, 2]", "c.push e\nc.push 0", "c.push 9", "c.clear()", "c.pop()"),
+            ("c = {a: 3, b: 1}", "c.insert 'e', e\nc.insert 'z', 0", "c.insert 'zz', 9", "c.clear()", "c.remove 'a'"),
+        ] {
+            if module == "map" && !init.starts_with("c = {") || module == "list" && !init.starts_with("c = [") {
+                continue;
+            }
+            for mutation in [m1, m2, m3] {
+                let recv = if module == "tuple" { "(c, e, 1)" } else if module == "iterator" && init.starts_with("c = {") { "c.values()" } else { "c" };
+                for args in ["", "e", "|x| x", "|x| e", "e, e", "|a, b| e", "0, |a, b| e", "1", "(e, 1)", "[e]"] {
+                    let text = format!("{}\n{}{}\nr = ({}).{}({})\nif koto.type(r) == 'Iterator'\n  r = r.to_tuple()\nsize c\n", init, meta_body(mutation), put, recv, name, args);
+                    f(Case { kind: 'R', text, group: "meta-mutator", apis: vec![api.clone(), "gen:meta-mutator".to_string()] });
+                }
+            }
+        }
+    }
+    // operators applied directly
+    for op in ["==", "!=", "<", ">", "+", "in"] {
+        for mutation in ["c.push 9", "c.clear()", "c.pop()"] {
+            for expr in [format!("c {} [e]", op), format!("[e] {} c", op), format!("(c, 1) {} (c, 1)", op), format!("e {} c", op), format!("c {} e", op)] {
+                let text = format!("c = [3, 1, 2]\n{}c.push e\nr = try\n  {}\ncatch err\n  'err'\nsize c\n", meta_body(mutation), expr);
+                f(Case { kind: 'R', text, group: "meta-mutator", apis: vec![format!("op:{}", op), "gen:meta-mutator".to_string()] });
+            }
+        }
+    }
+    // (h3) comparisons that are not a total order, over 20 .. 1000 elements, for every sorting / extremum
+    //      entry point (Rust's slice::sort_by may panic when it detects an inconsistent order)
+    let sizes: &[usize] = if thorough { &[20, 21, 33, 50, 100, 257, 500, 1000] } else { &[21, 50, 100, 500] };
+    // comparator objects: `st` is shared state (a counter and an LCG)
+    let comparators = [
+        ("lcg", "st.s = (st.s * 1103515245 + 12345) % 2147483648\n    st.s % 2 == 0", "st.s = (st.s * 1103515245 + 12345) % 2147483648\n    st.s % 3 == 0"),
+        ("always-true", "true", "true"),
+        ("always-false-lt-true-gt", "false", "true"),
+        ("alternating", "st.i += 1\n    st.i % 2 == 0", "st.i += 1\n    st.i % 2 == 1"),
+        ("reversed-after-100", "st.i += 1\n    if st.i < 100 then self.n < other.n else self.n > other.n", "st.i += 1\n    if st.i < 100 then self.n > other.n else self.n < other.n"),
+        ("reversed-after-30", "st.i += 1\n    if st.i < 30 then self.n < other.n else self.n > other.n", "st.i += 1\n    if st.i < 30 then self.n > other.n else self.n < other.n"),
+        ("reversed-after-300", "st.i += 1\n    if st.i < 300 then self.n < other.n else self.n > other.n", "st.i += 1\n    if st.i < 300 then self.n > other.n else self.n < other.n"),
+        ("flips-every-64", "st.i += 1\n    if (st.i / 64).floor() % 2 == 0 then self.n < other.n else self.n > other.n", "st.i += 1\n    if (st.i / 64).floor() % 2 == 0 then self.n > other.n else self.n < other.n"),
+        ("throws-after-50", "st.i += 1\n    if st.i > 50 then throw 'cmp'\n    self.n < other.n", "self.n > other.n"),
+        ("non-bool-after-50", "st.i += 1\n    if st.i > 50 then return 'x'\n    self.n < other.n", "self.n > other.n"),
+        ("cyclic-mod-3", "(self.n % 3 + 1) % 3 == other.n % 3", "(other.n % 3 + 1) % 3 == self.n % 3"),
+    ];
+    let uses = [
+        ("list.sort", "l = xs.to_list()\nl.sort()\nsize l"),
+        ("list.sort", "l = (0..N).to_list()\nl.sort |v| xs[v]\nsize l"),
+        ("tuple.sort_copy", "size xs.sort_copy()"),
+        ("tuple.sort_copy", "size (0..N).to_tuple().sort_copy |v| xs[v]"),
+        ("map.sort", "m = {}\nfor i in 0..N\n  m.insert i, i\nm.sort |k, v| xs[v]\nsize m"),
+        ("iterator.min", "r = xs.min()\nnull"),
+        ("iterator.max", "r = xs.max()\nnull"),
+        ("iterator.min_max", "r = xs.min_max()\nnull"),
+        ("iterator.min", "r = (0..N).min |v| xs[v]\nnull"),
+        ("iterator.max", "r = (0..N).max |v| xs[v]\nnull"),
+        ("list.contains", "xs.to_list().contains xs[0]"),
+    ];
+    for &n in sizes {
+        for (cname, lt, gt) in comparators {
+            for (api, body) in uses {
+                let text = format!(
+                    "st = {{i: 0, s: 7}}\nmk = |n|\n  n: n\n  @<: |other|\n    {}\n  @>: |other|\n    {}\n  @==: |other| self.n == other.n\nxs = (0..{}).each(|i| mk((i * 7919) % {})).to_tuple()\n{}\n",
+                    lt, gt, n, n, body.replace("N", &n.to_string())
+                );
+                f(Case { kind: 'R', text, group: "comparator", apis: vec![api.to_string(), "gen:comparator".to_string(), format!("cmp:{}", cname)] });
+            }
+        }
+        // plain values that stop being comparable part way: one string / null / NaN key among numbers
+        for (pos_name, pos) in [("first", 0usize), ("middle", n / 2), ("last", n - 1)] {
+            for odd in ["'x'", "null", "(1, 2)", "number.nan", "[1]"] {
+                for (api, body) in [
+                    ("list.sort", "l.sort()\nsize l"),
+                    ("list.sort", "l.sort |v| v\nsize l"),
+                    ("tuple.sort_copy", "size l.to_tuple().sort_copy()"),
+                    ("iterator.min_max", "r = l.min_max()\nnull"),
+                    ("map.sort", "m = {}\nfor v in l\n  m.insert(koto.hash(v), v)\nm.sort |k, v| v\nsize m"),
+                ] {
+                    let text = format!("l = (0..{}).each(|i| (i * 7919) % {}).to_list()\nl[{}] = {}\n{}\n", n, n, pos, odd, body);
+                    f(Case { kind: 'R', text, group: "comparator", apis: vec![api.to_string(), "gen:comparator".to_string(), format!("cmp:incomparable-{}", pos_name)] });
+                }
+            }
+            // map.sort() on keys that include NaN
+            let text = format!("m = {{}}\nfor i in 0..{}\n  m.insert((i * 7919) % {}, i)\nm.insert number.nan, 0\nm.insert -0.0, 1\nm.sort()\nsize m\n", n, n);
+            f(Case { kind: 'R', text, group: "comparator", apis: vec!["map.sort".to_string(), "gen:comparator".to_string(), format!("cmp:nan-key-{}", pos_name)] });
+        }
+    }
+    // (h4) functions / generators with many defaulted (and variadic) parameters called with few arguments
+    //      from frames under register pressure (call_koto_function / call_generator add ids in u8)
+    let defaults: &[usize] = if thorough { &[1, 50, 100, 120, 150, 200, 250] } else { &[50, 100, 150, 250] };
+    let locals: &[usize] = if thorough { &[0, 50, 100, 150, 170, 180, 190, 200, 220, 240, 250] } else { &[0, 150, 180, 200, 240] };
+    for &d in defaults {
+        let params: Vec<String> = (0..d).map(|i| format!("p{} = {}", i, i)).collect();
+        for (kind, body, consume) in [("function", "  p0", ""), ("generator", "  yield p0\n  yield 1", ".to_tuple()"), ("variadic", "  size rest", "")] {
+            let plist = if kind == "variadic" { format!("{}, rest...", params.join(", ")) } else { params.join(", ") };
+            for &l in locals {
+                let locs: String = (0..l).map(|i| format!("  v{} = {}\n", i, i)).collect();
+                for call in ["g()", "g(1)", "g(1, 2, 3)", "(1, 2).each(|x| g(x)).to_tuple()", "g(g())"] {
+                    let text = format!("g = |{}|\n{}\nf = ||\n{}  r = {}{}\n  r\nf()\n", plist, body, locs, call, consume);
+                    f(Case { kind: 'R', text, group: "default-args", apis: vec!["gen:default-args".to_string(), "gen:register-pressure".to_string()] });
+                }
+            }
+        }
+    }
+}
